@@ -252,6 +252,14 @@ def derived_cases(tier, rng):
         ([["Content-Type", "application/json; charset=nonsense"]], [b'{}']),
         ([["Content-Type", "application/json"]], [b'"\xff"']),
         ([["Content-Type", "application/json"]], [b'']),
+        # what json.loads refuses with something else than a decode error (seed C04-13): an integer literal beyond the
+        # interpreter's digit limit (a plain ValueError), nesting deeper than the interpreter follows (RecursionError)
+        ([["Content-Type", "application/json"]], [b"1" * 4301]),
+        ([["Content-Type", "application/json"]], [b'{"n": ', b"9" * 6000, b"}"]),
+        ([["Content-Type", "application/json"]], [b"-" + b"7" * 4300]),
+        ([["Content-Type", "application/json"]], [b"[" * 200000]),
+        ([["Content-Type", "application/json"]], [b'{"a":' * 100000]),
+        ([["Content-Type", "application/json"]], [b"[" * 50 + b"]" * 50]),
         ([["Content-Type", "application/x-www-form-urlencoded; charset=latin-1"]], [b"a=%E9&b=\xe9"]),
         ([["Content-Type", "application/x-www-form-urlencoded"]], [b"a=\xff"]),
         ([["Content-Type", "text/plain"]], [b"x"]),
